@@ -98,3 +98,41 @@ End WithHash.
 
 (* AddWithWeight's replica count: h.replicas * weight / TopWeight (Go int division, weight >= 0) *)
 Definition weight_replicas (r : nat) (w : nat) (top : nat) : nat := (r * w / top)%nat.
+
+(* ---- keys and nodes as Go values: lang.Repr (lib/lang/lang.go:19-36), hash.repr (consistenthash.go:173) ----
+   A Go value is described by the branch of Repr it takes. The texts produced by strconv, by fmt.Sprint of a
+   struct and by a value's own String method are inputs (like the hash), Repr's own dispatch is transcribed. *)
+Require Coq.Strings.String.
+Import Coq.Strings.String.StringSyntax.
+Notation string := String.string.
+Local Open Scope string_scope.
+
+Inductive gval :=
+| GNil                               (* untyped nil interface *)
+| GStringer (s : string)             (* implements fmt.Stringer (pointer or value receiver, nil receiver or not) and
+                                        v.String() = s. A value whose OWN String method panics is a caller fault
+                                        and outside the model: Repr would propagate that panic. *)
+| GPtr (elem : option string)        (* pointer that is no Stringer: None = typed nil pointer,
+                                        Some t = points to a non-pointer value whose reprOfValue text is t *)
+| GVal (t : string).                 (* bool, ints, floats, string, []byte, struct value: text t *)
+
+Definition repr (v : gval) : result string :=
+  match v with
+  | GNil => Ok ""                    (* lang.go:20 if v == nil *)
+  | GStringer s => Ok s              (* lang.go:25 case fmt.Stringer: return vt.String() *)
+  | GPtr (Some t) => Ok t            (* lang.go:31 val = val.Elem() *)
+  | GPtr None => Ok "<nil>"          (* Kind()==Ptr && IsNil: kept; reprOfValue default: fmt.Sprint -> <nil> *)
+  | GVal t => Ok t                   (* reprOfValue *)
+  end.
+
+(* ConsistentHash.Get on a Go value: consistenthash.go:97 tests the ring BEFORE repr(v) is evaluated;
+   hf = hashFunc on the representation, inner = hashFunc (innerRepr v) (fmt.Sprintf, never panics) *)
+Definition get_key (hf : string -> N) (s : st) (k : gval) (inner : N) : result (option nat) :=
+  match ring s with
+  | [] => Ok None
+  | _ => match repr k with
+         | Ok r => get s (hf r) inner
+         | Err e => Err e
+         | Panic => Panic
+         end
+  end.
